@@ -2,7 +2,7 @@
 import itertools
 from .. import common as C, structs as S, valgen as V, seqgen as G, refcodec as R
 
-LEAN_MODULES = ["ZvtVerif.Properties.C06"]
+LEAN_MODULES = ["ZvtVerif.Properties.C06", "ZvtVerif.Properties.C06C"]
 ASSUMPTIONS = ["scripted terminal as in C05; a truncated packet is always followed by the end of the connection"]
 
 
